@@ -375,7 +375,7 @@ impl Runner {
         // afterwards would have no one left to publish under it or to
         // revoke it (the operator of the trust anchor would have to remove
         // the child; nothing in Krill can).
-        if self.ext.signer_offline {
+        if self.ext.signer_offline || self.ext.signer_backlog {
             let under_ta = |me: &Runner, inst: usize, name: &str| {
                 me.model.ca(inst, name).map(|ca| {
                     ca.parents.values().any(|p| p.parent_ca == "ta")
@@ -641,6 +641,9 @@ impl Runner {
             }
             Op::SignerSession => {
                 self.ext.signer_offline = false;
+                // The requests that piled up are only answered by the
+                // background work that follows.
+                self.ext.signer_backlog = true;
                 let i = self.world.inst(0);
                 i.enter();
                 let res = i.rt().tasks().schedule(
@@ -755,6 +758,9 @@ impl Runner {
         }
         match res {
             Guarded::Ok(true) => {
+                if !self.ext.signer_offline {
+                    self.ext.signer_backlog = false;
+                }
                 self.sync_model_after_pump();
                 self.check_caught_up();
                 if self.oracles.c11 {
